@@ -13,7 +13,7 @@ rc, out = vlib.run_harness(binary, fam, p, seed=seed, n=n, args=args)
 print("harness rc", rc, out[-500:] if rc else "")
 recs = vlib.read_jsonl(p)
 errs = [r for r in recs if r.get("error")]
-print(len(recs), "histories,", sum(len(r["obs"]) for r in recs), "steps,", len(errs), "child errors,", sum(1 for r in recs if r.get("halt")), "halted")
+print(len(recs), "histories,", sum(len(r.get("obs") or []) for r in recs), "steps,", len(errs), "child errors,", sum(1 for r in recs if r.get("halt")), "halted")
 for r in errs[:3]: print("ERROR", r["history"]["id"], r["error"][:1500])
 for r in recs:
     if r.get("halt"): print("HALT", r["history"]["id"], r["halt"][:200])
